@@ -241,6 +241,8 @@ enum Sess<C: HCfg> {
 }
 
 struct Node<C: HCfg> {
+    /// frame of the previous tick's input submission (to recognise a re-submission after a stall)
+    last_submit_frame: i32,
     sess: Sess<C>,
     game: GameSt,
     tr: NodeTrace,
@@ -758,6 +760,17 @@ fn record_sizes<C: HCfg>(n: &mut Node<C>, track_series: bool) {
 pub fn run<C: HCfg>(scn: &Scenario, devs: &Devs, opt: &RunOpt) -> ExecResult {
     ggrs::verif_hooks::reset(1_000_000, scn.rng_seed, scn.hash_seed);
     ggrs::verif_hooks::set_wait_quantum_us((scn.round_us / 8).max(1));
+    crate::net::WAIT_EARLY.with(|c| c.set(0));
+    crate::net::WAIT_YIELDS_THIS_CALL.with(|c| c.set(0));
+    ggrs::verif_hooks::set_wait_callback(Some(Box::new(|| {
+        let n = crate::net::WAIT_YIELDS_THIS_CALL.with(|c| {
+            c.set(c.get() + 1);
+            c.get()
+        });
+        if n >= 4 {
+            crate::net::WAIT_EARLY.with(|c| c.set(1));
+        }
+    })));
     let chooser = Chooser::new(devs.clone(), scn.max_points);
     let net = Rc::new(RefCell::new(SimNet::new(scn.latency, chooser)));
     {
@@ -1019,6 +1032,7 @@ fn new_node<C: HCfg>(sess: Sess<C>, addr: Addr, is_spec: bool, window: usize, sc
         resim: Vec::new(),
         first_sims: Vec::new(),
         diverge_from: scn.diverge.and_then(|(n, f)| if n == idx { Some(f) } else { None }),
+        last_submit_frame: -1,
         stats_handle: if scn.checks & (1 << 22) != 0 && scn.stats_spectator {
             // hosts ask for their first spectator; spectators have a single link (any value)
             if idx >= scn.peers.len() || scn.specs.iter().any(|sp| sp.host == scn.peers[idx].addr) { scn.num_players } else { usize::MAX }
@@ -1132,6 +1146,8 @@ fn step_node<C: HCfg>(
         }
     }
     rec.t_us = now();
+    crate::net::WAIT_EARLY.with(|c| c.set(0));
+    crate::net::WAIT_YIELDS_THIS_CALL.with(|c| c.set(0));
     let is_spec = n.tr.is_spec;
     // schedule
     let (tick_every, tick_phase, poll_only, use_wait, drain) = if is_spec {
@@ -1210,6 +1226,8 @@ fn step_node<C: HCfg>(
         Sess::P(s) => {
             let f = s.current_frame();
             rec.cur_before = f;
+            let resubmission = n.last_submit_frame == f;
+            n.last_submit_frame = f;
             let handles = scn.peers[ni].locals.clone();
             let alloc_base = crate::alloc::begin(usize::MAX);
             let r = catch_unwind(AssertUnwindSafe(|| {
@@ -1218,11 +1236,16 @@ fn step_node<C: HCfg>(
                 if style == 1 {
                     order.reverse();
                 }
+                // style 3: an application that samples its input device anew on every tick: when
+                // the previous call did not advance the frame, the value handed over for the same
+                // frame now differs. The value submitted (and sent) first stays the true one.
+                let again = style == 3 && resubmission;
                 for h in &order {
                     if style == 2 {
                         s.add_local_input(*h, scn.program.value(*h, f) ^ 0x5A).expect("add_local_input for a local handle");
                     }
-                    s.add_local_input(*h, scn.program.value(*h, f)).expect("add_local_input for a local handle");
+                    let v = scn.program.value(*h, f) ^ if again { 0x21 } else { 0 };
+                    s.add_local_input(*h, v).expect("add_local_input for a local handle");
                 }
                 if use_wait {
                     match scn.peers[ni].wait_timeout_ms {
@@ -1234,6 +1257,7 @@ fn step_node<C: HCfg>(
                 }
             }));
             n.tr.peak_alloc = n.tr.peak_alloc.max(crate::alloc::end(alloc_base));
+            crate::net::WAIT_EARLY.with(|c| c.set(0));
             match r {
                 Ok(Ok(reqs)) => {
                     rec.res = R_OK;
@@ -1404,12 +1428,36 @@ fn finish<C: HCfg>(
     new_states: u64,
     base_us: u64,
 ) -> ExecResult {
-    for n in nodes.iter_mut() {
+    let mut cx = cx;
+    for (ni, n) in nodes.iter_mut().enumerate() {
         if n.tr.crashed.is_none() {
             if let Sess::P(s) = &n.sess {
                 n.tr.conn = s.verif_connect_status();
             }
             record_sizes(n, false);
+        }
+        // C03 at the end of the run, against the FINAL connection status: a frame of the final
+        // timeline says Disconnected for a player exactly when it lies beyond the last frame
+        // finally held from that player (a cut-off that moves after frames were handed out as
+        // Disconnected leaves such frames behind)
+        if cx.scn.checks & CK_C03 != 0 && n.tr.crashed.is_none() && !n.tr.is_spec && cut.is_none() {
+            let conf = n.tr.calls.last().map(|c| c.conf.min(c.cur - 1)).unwrap_or(-1);
+            'frames: for (f, fr) in n.tr.sims.iter().enumerate() {
+                if f as i32 > conf {
+                    break;
+                }
+                for (p, st) in fr.stats.iter().enumerate() {
+                    let Some(&(disc, last)) = n.tr.conn.get(p) else { continue };
+                    if *st == 2 && (!disc || last >= f as i32) {
+                        cx.v("C03", "disconnected-untrue", ni, format!("final timeline frame {f} player {p}: status Disconnected, but at the end of the run the session holds that player's input up to frame {last} (disconnected flag {disc})"));
+                        break 'frames;
+                    }
+                    if *st == 0 && disc && last < f as i32 {
+                        cx.v("C03", "confirmed-untrue", ni, format!("final timeline frame {f} player {p}: status Confirmed, but the player is disconnected with last frame {last}"));
+                        break 'frames;
+                    }
+                }
+            }
         }
     }
     let mut nb = net.borrow_mut();
